@@ -1593,10 +1593,13 @@ def long_text_roundtrip(ctx):
     alphabet = ['a', ' ', '\n', '"', '\\', '\t', '\x01', '\x1f', '<', '>', '&', 'é', '日', '\U0001F600', ' ', ' ',
                 '́', '\x7f', ' ', '{', '}', "'", '\r']
     sizes_ = [1, 2, 17, 1000, 70000] if ctx.quick() else [1, 2, 17, 1000, 70000, 400000]
-    st = Store()
     bad = []
-    n = 0
-    try:
+    counts = []
+
+    def phase_sizes():
+      st = Store()
+      n = 0
+      try:
         for size in sizes_:
             for mode in ('json', 'stdin', 'flags'):
                 body = 'x' + ''.join(rng.choice(alphabet) for _ in range(size)) + 'y'
@@ -1626,8 +1629,16 @@ def long_text_roundtrip(ctx):
                 rc, out, _ = st.run(['--json', 'show', i])
                 if json.loads(out)['body'] != body2:
                     bad.append(('roundtrip_after_set_compact', mode, size))
-        # multi-byte characters placed across every power-of-two buffer boundary (4 KiB ... 128 KiB), all input modes
-        for ch in ('€', 'é', '\U0001F600'):
+      finally:
+        st.close()
+        counts.append(n)
+
+    def phase_boundary(ch):
+      # multi-byte characters placed across every power-of-two buffer boundary (4 KiB ... 128 KiB), all input modes
+      st = Store()
+      n = 0
+      try:
+        if True:
             for off in range(len(ch.encode())):
                 body = 'a' * off + ch * (140000 // len(ch.encode()))
                 for mode in ('stdin', 'json'):
@@ -1647,7 +1658,15 @@ def long_text_roundtrip(ctx):
                     got = json.loads(st.run(['--json', 'show', i])[1])['body']
                     if rc == 0 and got != 'b' + body:
                         bad.append(('roundtrip_boundary_set', mode, repr(ch)))
-        # whitespace-edged texts through every mode x {create, set} x {task, epic}: bodies are never trimmed, titles only by flags / set
+      finally:
+        st.close()
+        counts.append(n)
+
+    def phase_edges():
+      # whitespace-edged texts through every mode x {create, set} x {task, epic}: bodies are never trimmed, titles only by flags / set
+      st = Store()
+      n = 0
+      try:
         edges = [' lead', 'trail ', '\ttab lead', 'final newline\n', '\n\nblank lines first', '  two  ', 'nbsp\u00a0', '\u3000ideographic lead', 'x\r\n']
         for txt in edges:
             for kind in ('task', 'epic'):
@@ -1676,11 +1695,18 @@ def long_text_roundtrip(ctx):
                         got = shown['epic']['body'] if 'epic' in shown and isinstance(shown['epic'], dict) else shown['body']
                         if got != txt2:
                             bad.append(('body_edge_set', kind, smode, repr(txt2), repr(got)))
-        ctx.cov['long_text_cases'] = n
-        for b in bad:
-            ctx.violations.append(('monitor', 'text did not come back as it went in: %s' % (b,), {'kind': 'text', 'case': b}))
-    finally:
+      finally:
         st.close()
+        counts.append(n)
+
+    import concurrent.futures as _cf
+    with _cf.ThreadPoolExecutor(max_workers=6) as ex:
+        futs = [ex.submit(phase_sizes), ex.submit(phase_edges)] + [ex.submit(phase_boundary, ch) for ch in ('€', 'é', '\U0001F600')]
+        for f in futs:
+            f.result()
+    ctx.cov['long_text_cases'] = sum(counts)
+    for b in sorted(bad, key=repr):
+        ctx.violations.append(('monitor', 'text did not come back as it went in: %s' % (b,), {'kind': 'text', 'case': b}))
 
 
 def replay(ctx, path):
